@@ -161,8 +161,12 @@ def r2(ctx: Ctx) -> None:
     ctx.site(f.where, "fixed modules: centre and ratios are constants (not variables)")
     fixed_x = [st for st in atoms_of(cd, lambda x: x[0] == "if" and x[1][0] == "a" and x[1][2] == "is_fixed")]
     ok = any(any(s_[0] == "set" and s_[1][0] == "s" and contains(s_[1], "x") and s_[2][0] == "a" and s_[2][2] == "x" for s_ in st[2]) for st in fixed_x)
-    ratio_if = [st for st in atoms_of(cd, lambda x: x[0] == "if" and x[1][0] == "or" and any(d[0] == "a" and d[2] == "is_fixed" for d in x[1][1]))]
-    ok = ok and any(any(s_[0] == "set" and not _gvar(s_[2]) for s_ in st[2]) and any(s_[0] == "set" and _gvar(s_[2]) for s_ in st[3]) for st in ratio_if)
+    def _isfx(d):
+        return d[0] == "a" and d[2] == "is_fixed"
+    # (arm taken when the module is fixed, other arm): the conditional is stored with its positive test
+    ratio_if = [(st[2], st[3]) for st in atoms_of(cd, lambda x: x[0] == "if" and (_isfx(x[1]) or (x[1][0] == "or" and any(_isfx(d) for d in x[1][1]))))]
+    ratio_if += [(st[3], st[2]) for st in atoms_of(cd, lambda x: x[0] == "if" and x[1][0] == "and" and any(d[0] == "not" and _isfx(d[1]) for d in x[1][1]))]
+    ok = ok and any(any(s_[0] == "set" and not _gvar(s_[2]) for s_ in fx) and any(s_[0] == "set" and _gvar(s_[2]) for s_ in mv) for fx, mv in ratio_if)
     if not ok:
         ctx.report(f.where, "fixed-constants", "fixed modules are not modelled with constant centre and constant ratios", lineno=f.node.lineno)
     # area: every module gets sum(cell area * ratio) >= area
